@@ -1,0 +1,19 @@
+//go:build verif && amd64 && gc && !purego
+
+package chacha20poly1305
+
+// VerifHasAsm reports whether this build contains the assembly Seal/Open.
+func VerifHasAsm() bool { return true }
+
+// VerifUseAVX2 reports whether the assembly path is currently selected.
+func VerifUseAVX2() bool { return useAVX2 }
+
+// VerifSetUseAVX2 selects the assembly (true) or portable (false) path and
+// returns the previous setting. The caller must only pass true if the CPU
+// supports it (i.e. if the initial value was true). Not safe for concurrent
+// use with Seal/Open.
+func VerifSetUseAVX2(on bool) (old bool) {
+	old = useAVX2
+	useAVX2 = on
+	return old
+}
